@@ -67,7 +67,9 @@ func (s *Server) urlGenHandlerFunc(w http.ResponseWriter, r *http.Request) {
 		for _, a := range aInfo.Assets {
 			if a.Path == asset {
 				data.MPDs = mpdsFromAssetInfo(a)
-				data.MPDs[0].Selected = true
+				if len(data.MPDs) > 0 {
+					data.MPDs[0].Selected = true
+				}
 			}
 		}
 		templateName = "mpds"
@@ -76,7 +78,9 @@ func (s *Server) urlGenHandlerFunc(w http.ResponseWriter, r *http.Request) {
 		for _, aI := range aInfo.Assets {
 			if aI.Path == asset {
 				data.DRMs = drmsFromAssetInfo(aI, s.Cfg.DrmCfg, "")
-				data.DRMs[0].Selected = true
+				if len(data.DRMs) > 0 { // empty without a DRM configuration
+					data.DRMs[0].Selected = true
+				}
 			}
 		}
 		templateName = "drms"
